@@ -35,4 +35,4 @@ def run(ctx):
     ]
     ctx.require_obs("scenarios_timerservice", "scenarios_timerpool", "timers_fired", "cancel_true", "cancel_false",
                     "cancel_lost_race_to_fire", "reschedule_true", "periodic_timers", "discarded_by_shutdown",
-                    "late_schedule_refused", "shutdown_stop_racing", "shutdown_drain_racing", "clock_reads_delayed", "scenarios_in_second_life_timerservice", "bursts_due_around_shutdown")
+                    "late_schedule_refused", "shutdown_stop_racing", "shutdown_drain_racing", "clock_reads_delayed", "scenarios_in_second_life_timerservice", "bursts_due_around_shutdown", "timers_with_sub_millisecond_delay")
